@@ -406,7 +406,7 @@ fn add_files_case(st: &mut Stream, root: &Path, c: Case, family: &str) {
     let vids_ok = c.vrows.iter().enumerate().all(|(i, r)| r.0 == i);
     let inside = ids_ok
         && vids_ok
-        && !oob
+        && true
         && !c.el.empty_file
         && !c.vl.empty_file
         && c.el.blank_lines == 0
@@ -421,7 +421,11 @@ fn add_files_case(st: &mut Stream, root: &Path, c: Case, family: &str) {
     st.count(&format!("n_vertices:{}", match c.nv { None => "scanned", Some(n) if n == nvr => "explicit_true", _ => "explicit_other" }));
     st.count(&format!("max_degree:{}", if maxdeg > 12 { "13+".to_string() } else { maxdeg.to_string() }));
     st.count(&format!("edges:{}", (c.erows.len() + 9) / 10 * 10));
+    let (format_ok, inside) = (inside, inside && !oob);
     st.count(&format!("inside_hypotheses:{}", inside));
+    if format_ok && oob {
+        st.count("documented_format_but_dangling_end_point(must_fail)");
+    }
     st.count(&format!("via:{}", if c.via_builder { "DefaultGraphBuilder" } else { "Graph::from_files" }));
     if c.vl.columns != VCOLS.iter().map(|s| s.to_string()).collect::<Vec<_>>() {
         st.count("vertex_columns_shuffled_or_extra");
